@@ -36,7 +36,7 @@ Proof. eapply acts_trans; [apply sleep_drop_acts|apply sleep_drop_acts]. Qed.
 
 Lemma poll_aw0_acts now a iv dr : acts now dr (snd (fst (poll_aw0 now a iv dr))).
 Proof.
-  destruct a as [s|v dl|biased tie a b| |ch|tr s|rf ch s|rearm d3 s sx|pre s]; cbn [poll_aw0].
+  destruct a as [s|v dl|biased tie a b| |ch|tr s|rf ch s|rearm d3 s sx|pre s|kr chi cho]; cbn [poll_aw0].
   - pose proof (sleep_poll_acts now s dr) as H. destruct (sleep_poll now s dr) as [[r s'] dr']. exact H.
   - pose proof (timeout_poll_acts _ vpoll now v dl dr (fun v0 dr0 => vpoll_acts now v0 dr0)) as H.
     destruct (timeout_poll vpoll now v dl dr) as [[[res v'] dl'] dr']. cbn [snd] in H.
@@ -69,11 +69,12 @@ Proof.
         destruct r4; cbn [fst snd]; exact H.
       * eapply acts_trans; [exact H1|]. eapply acts_trans; [exact H2|apply drops_acts].
   - pose proof (sleep_poll_acts now s dr) as H. destruct (sleep_poll now s dr) as [[r s'] dr']. exact H.
+  - apply acts_refl.
 Qed.
 
 Lemma poll_aw_acts now m a iv dr mail : acts now dr (snd (fst (fst (poll_aw now m a iv dr mail)))).
 Proof.
-  destruct a as [s|v dl|biased tie a b| |ch|tr s|rf ch s|rearm d3 s sx|pre s]; cbn [poll_aw fst]; try apply poll_aw0_acts.
+  destruct a as [s|v dl|biased tie a b| |ch|tr s|rf ch s|rearm d3 s sx|pre s|kr chi cho]; cbn [poll_aw fst]; try apply poll_aw0_acts.
   - pose proof (timeout_poll_acts _ (vpoll_m m) now (v, mail) dl dr (fun v0 dr0 => vpoll_m_acts m now v0 dr0)) as H.
     destruct (timeout_poll (vpoll_m m) now (v, mail) dl dr) as [[[res vm'] dl'] dr']. cbn [snd] in H.
     destruct res; cbn [fst snd]; [exact H| |];
@@ -87,11 +88,13 @@ Proof.
       destruct r; cbn [fst snd]; [eapply acts_trans; [exact H|apply sleep_drop_acts]|].
       destruct (mail_take m ch mail) as [[x mail']|]; cbn [fst snd]; [|exact H].
       eapply acts_trans; [exact H|apply drops_acts].
+  - destruct (mail_take m chi mail) as [[s mail']|]; cbn [fst snd]; [|apply acts_refl].
+    pose proof (sleep_poll_acts now s dr) as H. destruct (sleep_poll now s dr) as [[r s'] dr']. exact H.
 Qed.
 
 Lemma start_step0_acts now s iv dr nid lg : acts now dr (snd (fst (fst (start_step0 now s iv dr nid lg)))).
 Proof.
-  destruct s as [d|t|d v|biased a b|p b| | |polled d1 d2|d| |ch d|ch|d ch|rf ch d|rearm d0 d2 x d3|wf d]; cbn [start_step0]; try apply acts_refl.
+  destruct s as [d|t|d v|biased a b|p b| | |polled d1 d2|d| |ch d|ch|d ch|rf ch d|rearm d0 d2 x d3|wf d|wr chi cho]; cbn [start_step0]; try apply acts_refl.
   - destruct v; apply acts_refl.
   - apply iv_drop_acts.
   - apply iv_drop_acts.
@@ -119,7 +122,7 @@ Qed.
 Lemma start_step_acts now m k s iv dr nid lg mail :
   acts now dr (snd (fst (fst (fst (start_step now m k s iv dr nid lg mail))))).
 Proof.
-  destruct s as [d|t|d v|biased a b|p b| | |polled d1 d2|d| |ch d|ch|d ch|rf ch d|rearm d0 d2 x d3|wf d0]; cbn [start_step fst]; try apply start_step0_acts.
+  destruct s as [d|t|d v|biased a b|p b| | |polled d1 d2|d| |ch d|ch|d ch|rf ch d|rearm d0 d2 x d3|wf d0|wr chi cho]; cbn [start_step fst]; try apply start_step0_acts; try apply acts_refl.
   pose proof (sleep_poll_acts now (sleep_new (now + d) nid) dr) as H.
   destruct (sleep_poll now (sleep_new (now + d) nid) dr) as [[r s1] dr1]. cbn [fst snd] in *. exact H.
 Qed.
